@@ -205,6 +205,36 @@ func runC19(c *worker.Ctx) {
 		res.Violate("C19/encode-error", "C19/encode-error:"+errClass(err), fmt.Sprintf("encoder refused a parser-produced statement: %v\nsource:\n%s", err, clipSrc(src)))
 		return
 	}
+	// Encoder history: what Encode/Encodes returned must not change when the
+	// encoder is used again (a host may queue requests before shipping them).
+	if c.T.Bool(1, 4) && len(res.Violations) == 0 {
+		var held []byte
+		func() {
+			defer func() { recover() }()
+			if single {
+				held, _ = codec.NewEncoder().Encode(stmts[0])
+			} else {
+				held, _ = codec.NewEncoder().Encodes(stmts)
+			}
+		}()
+		snapshot := append([]byte{}, held...)
+		func() {
+			defer func() { recover() }()
+			for _, it := range encCorpus()[:min(3, len(encCorpus()))] {
+				codec.NewEncoder().Encode(it.Stmt)
+				codec.NewEncoder().Encodes([]ast.Statement{it.Stmt, it.Stmt})
+			}
+		}()
+		if !bytes.Equal(held, snapshot) {
+			how := "Encode"
+			if !single {
+				how = "Encodes"
+			}
+			res.Violate("C19/roundtrip", "C19/encoding-aliased:"+how, fmt.Sprintf("the bytes returned by %s changed after later encoder calls (they alias reused memory): %d bytes, first difference at %d\nsource:\n%s", how, len(held), firstDiff(held, snapshot), clipSrc(src)))
+			return
+		}
+		res.Probe("encoding_rechecked_after_later_encodes")
+	}
 	c.Logf("mode=%d single=%v stmts=%d enc=%d", mode, single, len(stmts), len(enc))
 	kindProbes(res, stmts)
 	if len(enc) > 4096 {
@@ -568,4 +598,13 @@ func c19CorpusCut(c *worker.Ctx) {
 	if got.err != nil {
 		res.Probe("decode_error_returned")
 	}
+}
+
+func firstDiff(a, b []byte) int {
+	for i := 0; i < len(a) && i < len(b); i++ {
+		if a[i] != b[i] {
+			return i
+		}
+	}
+	return min(len(a), len(b))
 }
